@@ -299,6 +299,7 @@ theorem sepCall_noZero (s : Sep) : NoZero (s.call cfg) := by
     apply NoZero_bind
     · intro res; cases res <;> simp [NoZero]
     · exact genChars_noZero cfg cr
+  | custom f o d => exact ⟨by omega, fun _ _ => by simp [NoZero]⟩
 
 theorem body_noZero (title : Word → Word) (w : WLRecipe) (words : List Word) (hw : words ≠ [])
     (caps : Nat → Bool) (L : Nat) : ∀ (n i : Nat), NoZero (WLRecipe.body cfg title w words caps L i n)
